@@ -93,8 +93,11 @@ def make_case(rnd, lname, tlib, bf):
         for (rn, rp, rk) in rds:
             if rnd.random() < 0.4:
                 continue
+            noline = False
             if rp is not None and not bf and nread != 1:
-                continue            # no branch fork and fan-out: nothing to annotate (documented warning)
+                if rnd.random() < 0.6:
+                    continue
+                noline = True       # no branch fork and fan-out: documented warning, nothing may be annotated (the model agrees: -1)
             if rp is None and rn not in idx:
                 continue
             r, f = vals(), vals()                # empty triples read as 0 here too
@@ -102,7 +105,7 @@ def make_case(rnd, lname, tlib, bf):
             b = rn if rp is None else '%s/%s' % (rn, rp)
             esc = lambda x: x.replace('$', '\\$').replace('[', '\\[').replace(']', '\\]') if rnd.random() < 0.5 else x      # escaped special characters, as SDF writers emit them
             txt = '(INTERCONNECT %s %s %s %s)' % (esc(a), esc(b), triple_txt(rnd, r), triple_txt(rnd, f))
-            ents.append((None, txt, dict(io=False, noline=False, inst=0, pin=0, edge='none', r=r or [0, 0, 0], f=f or [0, 0, 0], **{'from': idx[dn], 'fpin': 0 if dp is None else tlib.pin_index(dk, dp),
+            ents.append((None, txt, dict(io=False, noline=noline, inst=0, pin=0, edge='none', r=r or [0, 0, 0], f=f or [0, 0, 0], **{'from': idx[dn], 'fpin': 0 if dp is None else tlib.pin_index(dk, dp),
                                                                                           'to': idx[rn], 'tpin': 0 if rp is None else tlib.pin_index(rk, rp)})))
     # interconnects that name a pin without a line (unconnected input pin, unused output pin): nothing to annotate
     for kind, iname, pm in mod['insts']:
